@@ -1393,6 +1393,61 @@ fn run(out: &mut Out, rng: &mut Rng, work: &str, cfg: &RunCfg, stats: &mut BTree
 					*stats.entry("restart:SKIPPED chain still shared".into()).or_insert(0) += 1;
 				}
 			}
+		} else {
+			// --- every concurrently used node is closed and REOPENED: what the threads left in the db and
+			// in the MMR files must be a state Chain::init accepts, with a header MMR that follows the
+			// header head, and it must still be the state observed before the restart
+			let before = {
+				let c = &shared.chain;
+				let (h, hh) = (c.head().unwrap(), c.header_head().unwrap());
+				format!("head={} hhead={}", kit.bid(&h.last_block_h), kit.bid(&hh.last_block_h))
+			};
+			let heights: Vec<u64> = sc.blocks.iter().map(|b| b.header.height).collect();
+			let hashes: Vec<Hash> = sc.blocks.iter().map(|b| b.hash()).collect();
+			let tag = format!("#ORACLE-FAIL C17 run={} seed={} threads={}: restart-after-concurrent-run:", run, seed_from_env(), n);
+			if let Some(m) = strong_header_view(&shared.chain, &sc.by_hash, &sc.parent, &heights, &hashes) {
+				out.raw(&format!("{} before the restart: {}", tag, m));
+			}
+			let mut sh = Some(shared);
+			let mut inner = None;
+			for _ in 0..100 {
+				match Arc::try_unwrap(sh.take().unwrap()) {
+					Ok(x) => {
+						inner = Some(x);
+						break;
+					}
+					Err(a) => {
+						sh = Some(a);
+						std::thread::sleep(Duration::from_millis(10));
+					}
+				}
+			}
+			match inner {
+				Some(x) => {
+					drop(x);
+					match std::panic::catch_unwind(AssertUnwindSafe(|| init_chain(&subject_dir, kit.genesis.clone()))) {
+						Ok(Ok(c2)) => {
+							if let Some(m) = strong_header_view(&c2, &sc.by_hash, &sc.parent, &heights, &hashes) {
+								out.raw(&format!("{} after the restart: {}", tag, m));
+							}
+							if let Err(e) = c2.validate(true) {
+								out.raw(&format!("{} validate(fast) fails after the restart: {}", tag, error_class(&e)));
+							}
+							let (h, hh) = (c2.head().unwrap(), c2.header_head().unwrap());
+							let after = format!("head={} hhead={}", kit.bid(&h.last_block_h), kit.bid(&hh.last_block_h));
+							if after != before {
+								out.raw(&format!("{} the node was at [{}] before the restart and is at [{}] after it", tag, before, after));
+							}
+							*stats.entry("restart:mix-node-reopened".into()).or_insert(0) += 1;
+						}
+						Ok(Err(e)) => out.raw(&format!("{} the node does not restart after the concurrent run (it was at [{}]): {}", tag, before, error_class(&e))),
+						Err(_) => out.raw(&format!("{} Chain::init panicked after the concurrent run", tag)),
+					}
+				}
+				None => {
+					*stats.entry("restart:SKIPPED chain still shared".into()).or_insert(0) += 1;
+				}
+			}
 		}
 	}
 
